@@ -668,7 +668,7 @@ def _eq(a, b):
 def err_chain(e):
     frames = []
     seen = 0
-    while e is not None and seen < 50:
+    while e is not None and seen < 2000:
         seen += 1
         if isinstance(e, EvaluationError):
             cls = type(e).__name__
